@@ -67,7 +67,10 @@ TEXT["C09"] = dict(
 )
 
 TEXT["C04"] = dict(
-    text="Two layers, both Coq-kernel checked without axioms. (1) GCore.v transcribes gomini/unify.go branch by branch - walk, CastVar, hasCycle through reflecttools.Any, isLeaf + "
+    text="Three layers, all Coq-kernel checked without axioms. (0) gen/GominiGen.v is TRANSLATED from gomini/unify.go on every run (genmicro -gomini: walk, hasCycle, isLeaf, unify, rewrite, "
+         "statement by statement into a result monad with out-of-fuel and panic outcomes; State.CastVar/Get/Set and the reflect / reflecttools calls with their closures are primitives over the model of C18) "
+         "and proved equal to the readable transcription for all inputs and fuel (C04_gen_is_transcription), so the theorems below hold of the text of /repo as it is now (C04_gen_is_unify, "
+         "C04_gen_mgu, C04_gen_fail) and the code never panics (C04_gen_never_panics). (1) GCore.v transcribes gomini/unify.go branch by branch - walk, CastVar, hasCycle through reflecttools.Any, isLeaf + "
          "reflect.DeepEqual, and the descent through reflecttools.ZipReduce with the state as accumulator - over the reflecttools value model of C18; theorem C04_code_is_unify: on "
          "pointer-shaped values (nil pointers, pointers to scalars, pointers to structs, slices, registered variable pointers; in interface-typed fields and elements any of these or the untyped nil) that transcription computes exactly what micro's verified "
          "unify computes on the term encoding of the values, for every fuel and every state; hence C04_code_ok (earlier bindings kept; the solutions of the result are exactly the unifiers "
@@ -76,10 +79,10 @@ TEXT["C04"] = dict(
          "C04_encoding_faithful. Tie: differential execution of the TRANSCRIPTION and of the encoding model against the real EqualO through the exported API (NewVar/Set/EqualO/CastVar/Get) "
          "under BOTH placeholder policies and two memory layouts (fresh nodes / equal sub-values shared and list prefixes aliasing one backing array), with oracles for verdict, unifier, "
          "most-general, earlier bindings, input state unchanged and independence of placeholder contents.",
-    note="trusted: Coq kernel + vm_compute; the harness's value encoding/decoding and reference unifier; the transcription is tied to the Go code by sampling (differential execution), "
-         "not by proof; content independence holds of the model by construction (placeholder contents are not an input) and is checked on the code by the oracle; termination of the "
+    note="trusted: Coq kernel + vm_compute; the translator genmicro and the primitives of GoLiteG.v; the reflecttools model Reflect.v (tied to reflecttools by C18); the harness's value encoding/decoding and reference unifier; "
+         "the transcription is tied to the Go code by translation + proof and, independently, by differential execution; content independence holds of the model by construction (placeholder contents are not an input) and is checked on the code by the oracle; termination of the "
          "transcription is inherited only for definite results (out-of-fuel is a distinguished outcome), totality is proved for the encoding layer (C04_total)",
-    technique="Coq proof (refinement of the transcribed algorithm to the verified unification model; induction on fuel with a fold lemma for ZipReduce) + differential correspondence",
+    technique="translation of gomini/unify.go to Gallina on every run + Coq proof (equality with the transcription; refinement of the transcription to the verified unification model; induction on fuel with a fold lemma for ZipReduce) + differential correspondence",
 )
 
 TEXT["C08"] = dict(
@@ -89,7 +92,7 @@ TEXT["C08"] = dict(
          "micro/walk.go and micro/reify.go on every run (genmicro) and proved equal to the model, panic-free (C08_code_is_model, C08_code_reify_var). gomini part: GCore.v transcribes rewrite "
          "(walk, CastVar, reflecttools.Map) over the reflecttools value model of C18 - struct fields, slice elements, Go map values, interface-typed slots; C08g_code_resolved: "
          "nothing reachable in the answer through the containers Map descends into is a bound variable, unbound variables stay their own placeholders; C08g_code_kind: the answer has the "
-         "kind of the walked query (never a bare key); C08g_resolved for the term encoding. Tie: differential execution of reifyS/Reify/Run; for gomini.Run the transcription (gunify over "
+         "kind of the walked query (never a bare key); rewrite as translated from gomini/unify.go on every run equals the transcription (C08g_gen_is_transcription, C08g_gen_resolved); C08g_resolved for the term encoding. Tie: differential execution of reifyS/Reify/Run; for gomini.Run the transcription (gunify over "
          "the goal's equations, then grewrite of the query) is evaluated in Coq on the same programs and compared with the real answers (values with leaves in struct fields, slices, maps and "
          "nested records; variables bound directly, through chains, or not at all), plus direct oracles (dynamic Go type of the query, resolvedness, placeholder identity of unbound variables, "
          "caller terms unmodified).",
